@@ -22,6 +22,8 @@ CHECKS = {
          "Lean 4 proof (case analysis on full-PTI / available power + arithmetic) + model/implementation correspondence on random shaft-line plants"),
  "C06": ("Theorems for an arbitrary efficiency characteristic: efficiency in use within [1 %,100 %]; forward formula: supplied x efficiency = delivered and supply >= delivery in both flow directions; zero flow gives zero; with an exact inverse no energy is created in reverse flow and both round trips are exact (also for electric machines in every role); array dispatch = scalar dispatch given inv 0 = 0; serial train efficiency = product of clamped stage efficiencies at their own loads, within (0,1]; zero residual of the strict balance = exact round trip. PARTIAL: for the interpolated inverse only a 1 % (sample spacing) bound is proved under a knot-exact/monotone contract; the 0.5 % and 1e-6 figures depend on scipy and are validated per case on the load range the curve covers; outside it they fail (known finding D16).",
          "Lean 4 proof (order/field arithmetic, parametric in the curve) + correspondence with curve and inverse oracles read from the real component"),
+ "C07": ("Theorems for arbitrary consumption / efficiency / split curves: engine fuel = bsfc(load) x P / 3.6e6, pilot fuel separate with its own curve, zero at zero power, non-negative for non-negative curve and power, constant curve = linear; genset and geared engine: engine power x efficiency at that load = delivered power (and >= it); fuel cell: (P/eta)/LHV/1e6; modules: system = N x module at 1/N of the cell-side power (and = one module at full power for a constant cell efficiency); COGAS: fuel formula, gas = share x P, gas + steam = P; running hours = sum of intervals with non-zero output. Correspondence with pull-based curve oracles through generator -> engine chains.",
+         "Lean 4 proof (field arithmetic, parametric in the curves) + correspondence with pull-based curve oracles on the real components"),
  "C15": ("Theorems over the model of min_load_table_dict + PmsLoadTable.on_pattern for every list of positive ratings (any length >= 1), every positive fraction and every load: sufficient (strictly above the load whenever some set is), all-on otherwise, minimal among non-empty sets, monotone, non-empty, loading <= fraction after an equal-sharing balance; and for the equal-size rule of feems.runsimulation (ceil): non-empty, sufficient, minimal, monotone. Proofs use only 'sorted + permutation of all patterns'. Correspondence compares table lookups exactly (integer ratings x dyadic fractions make double thresholds exact) incl. every threshold, ties, negative loads and loads above capacity; the MachineryCalculation front end is exercised by C16/C12.",
          "Lean 4 proof (sortedness + permutation argument over the pattern table) + model/implementation correspondence at and around every switching threshold"),
  "C17": ("Theorems over the storage model: energy = interval-weighted sum of terminal power x charging efficiency / discharging efficiency after converter loss, SoC formula (battery kWh, supercapacitor Wh), accumulated series starts at 0, has n+1 entries and ends at the total, stored energy never exceeds terminal energy for any series (so equal charge and discharge never raise the SoC), closed form for one charge/discharge. The converter is an abstract function constrained only by 'never creates energy'; in the correspondence its per-sample value is an oracle read from the real converter.",
